@@ -215,3 +215,42 @@ Corollary encode_bitpacked_decodes w vals :
   w <= 24 -> Forall (fun v => v < 2 ^ w) vals ->
   bp_dec w (N.of_nat (length vals)) (bp_enc w vals) = vals.
 Proof. intros _ Hv. rewrite <- (app_nil_r (bp_enc w vals)). now apply bp_roundtrip. Qed.
+
+(* ---- encode_rle_bp: encode_bitpacked, optionally behind a 4-byte length that is patched in afterwards ---- *)
+Theorem encode_rle_bp_correct w vals cap (withlength : bool) :
+  w <= 24 -> Forall (fun v => v < 2 ^ w) vals ->
+  let n := N.of_nat (length vals) in
+  let header := N.lor (N.shiftl ((n + 7) / 8) 1) 1 in
+  let body := uleb_enc header ++ bp_enc w vals in
+  header < 2 ^ 64 -> N.of_nat (length body) < 2 ^ 32 ->
+  (if withlength then 4 else 0) + N.of_nat (length body) <= cap ->
+  c_encode_rle_bp vals w cap withlength =
+  Ok (map Some ((if withlength then le_enc 4 (N.of_nat (length body)) else []) ++ body),
+      (if withlength then 4 else 0) + N.of_nat (length body)).
+Proof.
+  intros Hw Hv n header body Hh H32 Hcap. unfold c_encode_rle_bp.
+  destruct withlength; cbn [negb].
+  - assert (Hmin : N.min 4 cap = 4) by lia. rewrite Hmin.
+    rewrite (encode_bitpacked_correct w vals (cap - 4) Hw Hv Hh) by (fold n header body; lia).
+    fold n header body.
+    destruct (N.leb_spec 4 cap) as [_|Hbad]; [|lia].
+    replace (Z.to_N ((Z.of_N (4 + N.of_nat (length body)) - 4) mod 2 ^ 32)) with (N.of_nat (length body)).
+    + rewrite map_app. reflexivity.
+    + change (2 ^ 32)%Z with 4294967296%Z. change (2 ^ 32) with 4294967296 in H32.
+      rewrite Z.mod_small by lia. lia.
+  - rewrite (encode_bitpacked_correct w vals cap Hw Hv Hh) by (fold n header body; lia).
+    fold n header body. reflexivity.
+Qed.
+
+(* ---- width_from_max_int: the bit length, for every non-negative int64 ---- *)
+Theorem width_from_max_int_correct v : v < 2 ^ 63 ->
+  c_width_from_max_int v = N.size v /\ v < 2 ^ c_width_from_max_int v /\
+  (forall w, v < 2 ^ w -> c_width_from_max_int v <= w).
+Proof.
+  intros H. unfold c_width_from_max_int.
+  assert (Ht : N.testbit v 63 = false).
+  { destruct (N.eq_dec v 0) as [E|E]; [subst; reflexivity|]. apply N.bits_above_log2. apply N.log2_lt_pow2; lia. }
+  rewrite Ht. split; [reflexivity|]. split; [apply N.size_gt|].
+  intros w Hw'. destruct (N.eq_dec v 0) as [E|E]; [subst; cbn; lia|].
+  rewrite N.size_log2 by exact E. apply N.le_succ_l. apply N.log2_lt_pow2; [lia|exact Hw'].
+Qed.
